@@ -62,7 +62,7 @@ def build_app(track=None):
         app.response.headers.append('X-Multi', m)
         app.response.status = 201
         app.response.content_type = 'text/x-' + m
-        return 'ok-' + m
+        return 'ok-' + m + '|' + app.request.url + '|' + app.request.script_name + '|' + app.request.fullpath
 
     @app.route('/plain')
     def plain():
@@ -178,6 +178,9 @@ def environ_for(K, kind, m, track=None):
         st = RecStream(kw.pop('stream'))
         kw['stream'] = st
     env = Env(make_environ(**kw))
+    # the application is reached under a mount point that differs between the marker variants
+    env['SCRIPT_NAME'] = '/mount-' + m
+    env['HTTP_X_SCRIPT_NAME'] = '/xs-' + m
     if track is not None:
         track.append(weakref.ref(env))
         try:
